@@ -123,8 +123,28 @@ def check_lookup_model(ctx, out, pfp0, rule="C16.lookup"):
     ppath = [i for i in range(1, v.argc + 1) if "std::path::Path" in v.local_ty(i)]
     pmap = [i for i in range(1, v.argc + 1) if "BlocksParser" in v.local_ty(i) and "HashMap" in v.local_ty(i)]
     pext = [i for i in range(1, v.argc + 1) if re.search(r"HashMap<std::ffi::OsString, std::ffi::OsString>", v.local_ty(i))]
-    if len(ppath) != 1 or len(pmap) != 1 or len(pext) != 1:
+    base_env = {}
+    if len(ppath) == 1 and not pmap and not pext:
+        # the two tables as fields of a lookup struct (`&self`)
+        for i in range(1, v.argc + 1):
+            m = re.match(r"&(?:mut )?(blockwatch::[\w:]+)", v.local_ty(i))
+            ad = ctx.facts.adts.get(m.group(1)) if m else None
+            if not ad or len(ad.get("variants", [])) != 1:
+                continue
+            fs = []
+            for f in ad["variants"][0].get("fields", []):
+                if "BlocksParser" in f["ty"] and "HashMap" in f["ty"]:
+                    fs.append((f["name"], CW.sym("PARSERS")))
+                elif re.search(r"HashMap<std::ffi::OsString, std::ffi::OsString>", f["ty"]):
+                    fs.append((f["name"], CW.sym("EXTRA")))
+            if sorted(x[1][1] for x in fs) == ["EXTRA", "PARSERS"]:
+                base_env[i] = CW.adt(ad["path"], ad["variants"][0].get("name"), 0, fs)
+        if len(base_env) != 1:
+            return None
+    elif len(ppath) != 1 or len(pmap) != 1 or len(pext) != 1:
         return None
+    else:
+        base_env = {pmap[0]: CW.sym("PARSERS"), pext[0]: CW.sym("EXTRA")}
     std = CW.std_hooks()
     lm = LM.hooks()
     sm = SM.hooks()
@@ -179,7 +199,8 @@ def check_lookup_model(ctx, out, pfp0, rule="C16.lookup"):
                         else:
                             results.add("?")
                 w.on_visit = on_visit
-                env = {ppath[0]: CW.const("src/My.Dir/" + NAME_), pmap[0]: CW.sym("PARSERS"), pext[0]: CW.sym("EXTRA")}
+                env = dict(base_env)
+                env[ppath[0]] = CW.const("src/My.Dir/" + NAME_)
                 try:
                     w.explore(0, env)
                 except CW.Limit:
@@ -232,7 +253,7 @@ def run(ctx, out, tier):
     pfp = None
     tpe = None
     for b in ctx.facts.bodies.values():
-        if b.promoted is not None or b.kind != "Fn" or b.id not in ctx.reach:
+        if b.promoted is not None or b.kind not in ("Fn", "AssocFn") or b.id not in ctx.reach:
             continue
         if re.match(r"std::option::Option<&.*dyn blockwatch::block_parser::BlocksParser", b.local_ty(0)):
             if any("std::path::Path" in b.local_ty(i) for i in range(1, b.argc + 1)):
@@ -382,7 +403,8 @@ def run(ctx, out, tier):
             else:
                 out.viol("C16.known", "C16.known|none-arm", ctx.where(fp), "the unknown-file-name branch does not simply return Ok(None) (calls: %s)" % calls[:3])
             # the lookup uses the parser's own path / tables
-            labs = ctx.prov.read_operand(fp, lt["args"][0])
+            pidx = [i for i, ty in enumerate(lt.get("arg_tys") or []) if "std::path::Path" in ty] or [0]
+            labs = ctx.prov.read_operand(fp, lt["args"][pidx[0]])
             if any(l[0] == "param" and l[1] == 1 for l in labs):
                 kn += 1
         else:
